@@ -1,4 +1,5 @@
 """C03 - lr_guarded readers see only complete, current states."""
+import re
 from ..engine import CALLS, CTORS, atomic_ops, atomic_field_of, path, unwrap, callee_fq
 from ..facts import short
 from ..flow import TooManyPaths
@@ -75,7 +76,7 @@ def modify_rules(ctx):
         if not runs:
             ctx.broken("no feasible path through " + f.label)
         seen_val = set()
-        if any(e[0] == "unknown-atomic" for r in runs for e in r.events):
+        if any(e[0] in ("unknown-atomic", "unknown-helper") for r in runs for e in r.events):
             ctx.unknown("C03: %s performs atomic operations through an alias the path interpreter cannot resolve" % f.label)
             continue
         for r in runs:
@@ -153,7 +154,7 @@ def reader_rules(ctx):
         except TooManyPaths:
             ctx.broken("too many paths in " + f.label)
         vals = set()
-        if any(e[0] == "unknown-atomic" for r in runs for e in r.events):
+        if any(e[0] in ("unknown-atomic", "unknown-helper") for r in runs for e in r.events):
             ctx.unknown("C03.reader: %s performs atomic operations through an alias the path interpreter cannot resolve; "
                         "the reader rules cannot be applied to this shape" % f.label)
             continue
@@ -170,6 +171,9 @@ def reader_rules(ctx):
             cl = r.assume.get(loads_cl[0][2]) if loads_cl else None
             rl = r.assume.get(loads_rl[-1][2]) if loads_rl else None
             tag = "countingLeft=%s readingLeft=%s" % (cl, rl)
+            if cl is None or rl is None:
+                ctx.unknown("C03.reader: the value of a side/counting flag cannot be resolved along a path of %s" % f.label)
+                continue
             vals.add((cl, rl))
             site = f.loc(h[4])
             ok = len(incs) == 1 and incs[0][2] in ("operator++", "fetch_add") and cl is not None and \
@@ -392,6 +396,21 @@ def initial_state(ctx):
     rid = "C03.initial"
     ctx.rule(rid, "lr_guarded's constructor builds the second copy from the first (both copies start equal) and starts "
              "with both reader counters at zero", floor=4)
+    WIDE = ("int", "unsigned int", "long", "unsigned long", "long long", "unsigned long long")
+    recs = list(ctx.fb.records(tmpl=LR))
+    if not recs:
+        ctx.broken("no instantiation of lr_guarded (anchor vanished)")
+    for r_ in recs:
+        for c in COUNTERS:
+            fl = r_.field(c)
+            if fl is None:
+                ctx.broken("lr_guarded::%s not found (anchor vanished)" % c)
+            m_ = re.match(r"^std::atomic<(.*)>$", fl["type"])
+            ok = m_ is not None and m_.group(1).strip() in WIDE
+            ctx.ob(rid, ok, "%s:%d" % (short(r_.file), fl.get("line", r_.line)),
+                   "%s counts simultaneous read handles in an atomic integer of at least 32 bits" % c,
+                   "" if ok else "its type is %s: with enough handles alive the counter wraps to 0 and modify() writes the copy "
+                   "they are reading" % fl["type"], inst=r_.qname)
     for f in ctx.fb.functions(rec=LR):
         if f.kind != "ctor" or f.defaulted:
             continue
